@@ -323,7 +323,7 @@ def where(c, a, b):
         x = ca[i] if ca is not None else a
         y = cb[i] if cb is not None else b
         out.append(E.site(m, x, y))
-    return _wrap_like(c, out)
+    return ndarray(out)
 
 
 def unique(x, axis=None, return_index=False, return_counts=False):
